@@ -274,6 +274,11 @@ def _copy_layer_to_x_sparse(
                 src_dataset = src_grp[el]
                 dtype = src_dataset.dtype
                 chunks = src_dataset.chunks
+                if src_dataset.shape[0] == 0:
+                    # an array without entries (as anndata writes it:
+                    # resizable, with a chunk shape larger than its
+                    # length) is created without chunking
+                    chunks = None
                 dst_grp.create_dataset(
                     el,
                     shape=src_dataset.shape,
